@@ -33,6 +33,26 @@ def sh(cmd, cwd=None, env=None, timeout=1800):
         return 124, (ex.stdout or "") if isinstance(ex.stdout, str) else "timeout"
 
 
+MODARGS = []   # ["-modfile", path] for seeds in the goctl module (meta "modfile": "goctl")
+
+
+def goctl_modfile(wt):
+    """goctl is a separate module whose deps gookit/color and fatih/structtag are absent offline:
+    its own go.mod + replaces to the worktree and to the stand-in modules of harness/stubs."""
+    base = wt.rstrip("/") + ".goctl"
+    text = open(os.path.join(wt, "tools", "goctl", "go.mod")).read()
+    stubs = os.path.join(ROOT, "harness", "stubs")
+    text += "\nreplace github.com/zeromicro/go-zero => %s\nreplace github.com/gookit/color => %s/color\nreplace github.com/fatih/structtag => %s/structtag\n" % (wt, stubs, stubs)
+    with open(base + ".mod", "w") as f:
+        f.write(text)
+    lines = set()
+    for q in (os.path.join(wt, "go.sum"), os.path.join(wt, "tools", "goctl", "go.sum")):
+        lines.update(l for l in open(q).read().split("\n") if l.strip())
+    with open(base + ".sum", "w") as f:
+        f.write("\n".join(sorted(lines)) + "\n")
+    return base + ".mod"
+
+
 def run_demo(wt, sd, demo):
     src = os.path.join(sd, demo["file"])
     if demo.get("program"):
@@ -44,7 +64,7 @@ def run_demo(wt, sd, demo):
         return rc, out
     dst = os.path.join(wt, demo["pkg_dir"], "verifdemo_" + os.path.basename(demo["file"]))
     shutil.copy(src, dst)
-    cmd = ["go", "test", "-vet=off", "-count=1", "-run", demo.get("run", "."), "."]
+    cmd = ["go", "test"] + MODARGS + ["-vet=off", "-count=1", "-run", demo.get("run", "."), "."]
     if demo.get("race"):
         cmd.insert(2, "-race")
     rc, out = sh(cmd, cwd=os.path.join(wt, demo["pkg_dir"]), timeout=900)
@@ -66,6 +86,8 @@ def main():
         print(out)
         return 2
     try:
+        if meta.get("modfile") == "goctl":
+            MODARGS[:] = ["-modfile", goctl_modfile(wt)]
         demo = meta.get("demo")
         if demo:
             rc, out = run_demo(wt, sd, demo)
@@ -79,13 +101,13 @@ def main():
             print(json.dumps(res, indent=1))
             return 1
         bdir = os.path.join(wt, meta.get("module_dir", "."))
-        rc, out = sh(["go", "build", "./..."], cwd=bdir)
+        rc, out = sh(["go", "build"] + MODARGS + (meta.get("test_pkgs") if MODARGS else ["./..."]), cwd=bdir)
         res["builds"] = rc == 0
         if rc != 0:
             res["build_out"] = out[-1500:]
         pk = meta.get("test_pkgs") or []
         if pk:
-            rc, out = sh(["go", "test", "-vet=off", "-count=1"] + pk, cwd=bdir, timeout=2400)
+            rc, out = sh(["go", "test"] + MODARGS + ["-vet=off", "-count=1"] + pk, cwd=bdir, timeout=2400)
             res["existing_tests"] = "pass" if rc == 0 else "FAIL"
             if rc != 0:
                 res["existing_tests_out"] = "\n".join(l for l in out.split("\n") if not l.startswith("ok"))[-2500:]
@@ -104,6 +126,11 @@ def main():
     finally:
         sh(["git", "-C", "/repo", "worktree", "remove", "--force", wt])
         shutil.rmtree(wt, ignore_errors=True)
+        for ext in (".goctl.mod", ".goctl.sum"):
+            try:
+                os.remove(wt.rstrip("/") + ext)
+            except OSError:
+                pass
     print(json.dumps(res, indent=1))
     if "--write" in sys.argv:
         meta["confirmed"] = res
